@@ -11,4 +11,14 @@ func init() {
 		Real:        []string{"vault.Core request path", "token store", "cubbyhole", "response wrapping", "expiration manager", "barrier", "physical cache", "kv (v1) backend"},
 		Stub:        commonStub,
 	}
+	props["C19"] = propCfg{
+		Level: "exploration", QuickS: 60, ThoroughS: 900, Chunk: 150,
+		Rule:        "Each run draws n in 1..4, optionally D sequential wasted uses (denied path / failing handler), then m > n-D concurrent requests from {read, write, denied path, failing handler, lease-generating read, lookup-self, child-token create} (or a sequential history whose n-th use leases a secret), cache on/off, transactional or plain disk, SSC on/off, and a schedule over storage operations and lock hand-offs.",
+		LevelText:   "Seeded search over interleavings of m>n concurrent requests presenting one n-use token, at storage-operation and lock-hand-off granularity; oracle counts requests with an effect (backend handler reached or a non-permission-denied answer) against the remaining budget, then checks that the token is refused, its storage entries and leases are gone after the lazy revocations drained on the simulated clock, that no child token was created and (sequential variant) that the secret leased on the final use was withheld.",
+		LevelNote:   "Trusted: simulator kernel and synctest. Denied requests are counted through a sequential prefix (their consumption is not observable at the API in the concurrent phase). Real Core, token store, expiration manager; recording backend is the workload.",
+		Technique:   "deterministic simulation: seeded scheduler over the real vault.Core in a synctest bubble; counting oracle over the recorded backend history",
+		Assumptions: []string{"single node, no HA", "the physical backend is atomic per key and durable once acknowledged"},
+		Real:        []string{"vault.Core request path", "token store (UseToken, revocation)", "expiration manager", "ACL", "router", "barrier", "physical cache"},
+		Stub:        append([]string{"secrets engine used as workload (recbackend: records handler calls, issues/revokes leased secrets)"}, commonStub...),
+	}
 }
